@@ -938,3 +938,16 @@ impl<T: FftNum> FftPlannerScalar<T> {
         (f, i, r)
     }
 }
+#[cfg(rustfft_verif)]
+impl<T: FftNum> FftPlanner<T> {
+    /// Which planner `FftPlanner::new` chose
+    pub fn verif_kind(&self) -> &'static str {
+        match &self.chosen_planner {
+            ChosenFftPlanner::Scalar(_) => "scalar",
+            ChosenFftPlanner::Avx(_) => "avx",
+            ChosenFftPlanner::Sse(_) => "sse",
+            ChosenFftPlanner::Neon(_) => "neon",
+            ChosenFftPlanner::WasmSimd(_) => "wasm",
+        }
+    }
+}
